@@ -62,7 +62,8 @@ Definition boundary (f : filt) (ids : list nat) : bool :=
    model what the comparison returned.) *)
 Definition has_ties (t : tin) : bool :=
   let js := seq 0 (List.length (t_ms t)) in
-  existsb (fun j => negb (nodupz (col_vals (t_feats t) j)) || negb (nodupz (spec_vals (t_feats t) j))) js.
+  existsb (fun j => (m_ranking (nth j (t_ms t) dflt_m) && negb (nodupz (col_vals (t_feats t) j)))
+                    || negb (nodupz (spec_vals (t_feats t) j))) js.
 
 (* for metamorphic pairs the rounding noise of the two runs may differ at such a boundary *)
 Definition has_boundary (t : tin) : bool :=
